@@ -52,7 +52,10 @@ MANIFEST = {
             "file) and the death of the solver is enumerated at every byte "
             "offset of its output for each sampled workload. Verdicts are "
             "compared with a brute-force reference; sampling plus "
-            "per-workload fault enumeration, not proof.",
+            "per-workload fault enumeration, not proof. The set of "
+            "installed solvers may change between two calls of one "
+            "simulated process and the bridge's module state is re-created "
+            "for every run.",
     "design_ref": "DESIGN.md 4.12",
     "note": "Peers are stubs following the documented convention table; "
             "real solver binaries, pipes and process reaping are outside "
